@@ -13,10 +13,10 @@
               leaf types the arithmetic fact (every grid value round-trips) remains the hypothesis num_rt: it is false
               beyond 2^51 (C02_refuted_scaled_huge, open finding) and exercised by the correspondence.
    (json kind)  checked by Run.check_case (kind_ok, strict_json on the model's export) and by the oracle; no theorem.
-   (client) the client side type: refuted for strings with minchars>0 and no maxchars (C02_client_string_collapses,
-           C02_refuted_client_string); otherwise correspondence + oracle only.
-   (text)  refuted for 1-tuples (C02_one_tuple_text_refused) and -0.0 (C02_refuted_negzero_text); otherwise
-           correspondence + oracle only.  setParameterFromString (repaired by 7a693b7: it now exports) is from_string
+   (client) the client side type (string rebuild repaired by 414a5ee): C02_client_string_faithful; otherwise
+           correspondence + oracle only.
+   (text)  refuted for -0.0 (C02_refuted_negzero_text); 1-tuples (repaired by 5f8afed) are written (x,) and accepted
+           back: C02_one_tuple_text_accepted; otherwise correspondence + oracle only.  setParameterFromString (repaired by 7a693b7: it now exports) is from_string
            followed by the wire round trip: C02_setparam_roundtrip_except_scaled. *)
 From Coq Require Import ZArith NArith Bool List.
 Import ListNotations.
@@ -62,15 +62,21 @@ Theorem C02_setparam_roundtrip_except_scaled : forall C E d t w,
 Proof. exact setparam_roundtrip_except_scaled. Qed.
 Print Assumptions C02_setparam_roundtrip_except_scaled.
 
-Theorem C02_one_tuple_text_refused : forall C d1 t w,
-  lit_eval C t = Some w -> py_len w = None -> from_string C (TTuple [d1]) (PP [t]) = Err EWrongType.
-Proof. exact one_tuple_text_refused. Qed.
-Print Assumptions C02_one_tuple_text_refused.
+(* a tuple with one member is written (x,) and read back as a 1-tuple whose member is what __call__ makes of x *)
+Theorem C02_one_tuple_text_accepted : forall C d1 x t w y,
+  to_tree C d1 x = Ok t -> lit_eval C t = Some w -> dt_call d1 w = Ok y ->
+  exists t1, to_string C (TTuple [d1]) (PTuple [x]) = Ok t1 /\ from_string C (TTuple [d1]) t1 = Ok (PTuple [y]).
+Proof.
+  intros C d1 x t w y H1 H2 H3. exists (PT1 t). split.
+  - exact (one_tuple_to_tree C d1 x t H1).
+  - exact (one_tuple_text_accepted C d1 t w y H2 H3).
+Qed.
+Print Assumptions C02_one_tuple_text_accepted.
 
-Theorem C02_client_string_collapses : forall minc u, minc <> 0%Z ->
-  client_of (TString minc UNLIMITED u) = Ok (TString minc minc u).
-Proof. exact client_string_collapses. Qed.
-Print Assumptions C02_client_string_collapses.
+(* the client side of every string type is the string type itself (limits included) *)
+Theorem C02_client_string_faithful : forall minc maxc u, client_of (TString minc maxc u) = Ok (TString minc maxc u).
+Proof. reflexivity. Qed.
+Print Assumptions C02_client_string_faithful.
 
 (* non-vacuity: a nested type with int and double leaves satisfies every hypothesis of the round trip *)
 Definition demo_d : dtype :=
